@@ -1,6 +1,13 @@
 /-
 Invariants of the repaired Processor protocol (`Biogo.Processor.sys c` with `c.fixed = true`),
-for any number of workers, any buffer sizes, any list of operations and every schedule.
+for any number of workers, producers and collectors, any buffer sizes, any lists of operations
+and every schedule.
+
+The invariant is proved in three layers, each by induction over the reachable states:
+  `InvA` — the workers' bookkeeping (tokens, exit counter, wait group, close of `out`, no crash)
+  `InvB` — the data (every result that exists is the result of an operation taken; FIFO queue;
+           per-producer order; nothing lost or invented)
+  `InvC` — coherence of `out` with several receivers (queue of waiting collectors, hand-overs)
 -/
 import Biogo.Model.Processor
 
@@ -17,21 +24,30 @@ def WPc.isSendErr : WPc → Bool
 /-- number of workers that recovered from a panicking operation and still hold the error result -/
 def nErr (ws : List WPc) : Nat := ws.countP WPc.isSendErr
 
-structure Inv (c : Cfg) (s : St) : Prop where
+/-! ### shapes of a send on `out` -/
+
+theorem sendOut_cases {c : Cfg} {s s1 : St} {r : Res} (h : sendOut c s r = some s1) (hc0 : s.closes = 0) :
+    (∃ k rest, s.recvq = k :: rest ∧ s1 = { s with handoff := s.handoff.set k (some r), recvq := rest }) ∨
+    (s.recvq = [] ∧ s.outq.length < c.outCap ∧ s1 = { s with outq := s.outq ++ [r] }) := by
+  have hgt : ¬ (s.closes > 0) := by omega
+  simp only [sendOut, hgt, if_false] at h
+  split at h
+  · rename_i k rest hq
+    cases h; exact Or.inl ⟨k, rest, hq, rfl⟩
+  · rename_i hq
+    split at h
+    · rename_i hroom; cases h; exact Or.inr ⟨hq, hroom, rfl⟩
+    · cases h
+
+/-! ### layer A: the workers' bookkeeping -/
+
+structure InvA (c : Cfg) (s : St) : Prop where
   len : s.ws.length = c.threads
   nocrash : s.crashed = none
   exited_eq : s.exited = s.ws.countP WPc.isDone
   wg_eq : s.wgDone = s.exited
   closes_eq : s.closes = if s.exited = c.threads then 1 else 0
   tokens : s.work + s.ws.countP WPc.holds = c.threads
-  counts : ∀ x, (results s).count x = (s.taken.map eval).count x
-  order : s.taken ++ s.inq ++ s.todo = c.ops
-  closedTodo : s.inClosed = true → s.todo = []
-  rw_coh : s.recvWaiting = true → s.cpc = .receiving ∧ s.handoff = none
-  ho_coh : s.handoff.isSome = true → s.cpc = .receiving
-  recv_coh : s.cpc = .receiving → s.recvWaiting = true ∨ s.handoff.isSome = true
-  recv_empty : s.recvWaiting = true → s.outq = []
-  seen_coh : s.cpc = .closedSeen → s.outq = [] ∧ s.handoff = none ∧ s.closes = 1
   exit_why : 0 < nEx s.ws →
     s.stop = true ∨ (s.inClosed = true ∧ s.inq = []) ∨ s.taken.any Op.isPan = true
   err_why : 0 < nErr s.ws → s.taken.any Op.isPan = true
@@ -48,14 +64,13 @@ theorem filterMap_replicate_none {α β : Type} (f : α → Option β) (a : α) 
   | zero => rfl
   | succ n ih => simp [List.replicate_succ, ih, h]
 
-theorem inv_init (c : Cfg) (ht : 0 < c.threads) : Inv c (init c) := by
+theorem invA_init (c : Cfg) (ht : 0 < c.threads) : InvA c (init c) := by
   have h1 := countP_replicate_false WPc.isDone WPc.idle c.threads rfl
   have h2 := countP_replicate_false WPc.holds WPc.idle c.threads rfl
   have h3 := countP_replicate_false WPc.exiting WPc.idle c.threads rfl
-  have h4 := filterMap_replicate_none heldOf WPc.idle c.threads rfl
   have h5 := countP_replicate_false WPc.isSendErr WPc.idle c.threads rfl
   have hne : ¬ (0 = c.threads) := by omega
-  constructor <;> simp [init, results, held, h1, h2, h3, h4, h5, hne, nEx, nErr]
+  constructor <;> simp [init, h1, h2, h3, h5, hne, nEx, nErr]
 
 /-- bookkeeping facts for replacing worker `i`'s pc `a` by `b` -/
 theorem set_facts (ws : List WPc) (i : Nat) (a b : WPc) (h : ws[i]? = some a) :
@@ -68,7 +83,7 @@ theorem set_facts (ws : List WPc) (i : Nat) (a b : WPc) (h : ws[i]? = some a) :
   ⟨countP_set _ ws i a b h, countP_set _ ws i a b h, countP_set _ ws i a b h, countP_set _ ws i a b h,
    count_filterMap_set heldOf ws i a b h⟩
 
-theorem closes_zero_of_active {c : Cfg} {s : St} (hI : Inv c s) {i : Nat} {pc : WPc}
+theorem closes_zero_of_active {c : Cfg} {s : St} (hI : InvA c s) {i : Nat} {pc : WPc}
     (hget : s.ws[i]? = some pc) (hpc : pc.isDone = false) : s.closes = 0 ∧ s.exited < c.threads := by
   have h1 := countP_lt_length_of WPc.isDone s.ws i pc hget hpc
   have h2 := hI.len
@@ -78,9 +93,8 @@ theorem closes_zero_of_active {c : Cfg} {s : St} (hI : Inv c s) {i : Nat} {pc : 
   simp [this] at h4
   exact ⟨h4, by omega⟩
 
-macro "close_inv" h7:ident : tactic =>
-  `(tactic| (constructor <;> simp_all [results, held] <;>
-      first | done | omega | (intro x; have := $h7 x; omega) | grind | skip))
+macro "close_invA" : tactic =>
+  `(tactic| (constructor <;> simp_all <;> first | done | omega | grind | skip))
 
 macro "facts" ws:term "," i:term "," b:term "," hget:term : tactic =>
   `(tactic| (obtain ⟨hD, hH, hE, hR, hP⟩ := set_facts $ws $i _ $b $hget
@@ -88,73 +102,75 @@ macro "facts" ws:term "," i:term "," b:term "," hget:term : tactic =>
 
 variable {c : Cfg} {s s' : St} {i : Nat}
 
-theorem inv_w_idle (hI : Inv c s) (hget : s.ws[i]? = some .idle)
-    (h : workerStep c s i = some s') : Inv c s' := by
+theorem invA_w_idle (hI : InvA c s) (hget : s.ws[i]? = some .idle)
+    (h : workerStep c s i = some s') : InvA c s' := by
   simp only [workerStep, hget] at h
   split at h
   · cases h
     facts s.ws, i, WPc.recv, hget
-    obtain ⟨h1, h2, h3, h4, h5, h6, h7, h8, h9, h10, h11, h12, h13, h14, h15, h16⟩ := hI
-    close_inv h7
+    obtain ⟨h1, h2, h3, h4, h5, h6, h7, h8⟩ := hI
+    close_invA
   · cases h
 
-theorem inv_w_recv (hI : Inv c s) (hget : s.ws[i]? = some .recv)
-    (h : workerStep c s i = some s') : Inv c s' := by
+theorem invA_w_recv (hI : InvA c s) (hget : s.ws[i]? = some .recv)
+    (h : workerStep c s i = some s') : InvA c s' := by
   simp only [workerStep, hget] at h
   split at h
   · rename_i op rest hinq
     cases h
     cases hp : op.isPan
     · facts s.ws, i, (WPc.send (eval op)), hget
-      obtain ⟨h1, h2, h3, h4, h5, h6, h7, h8, h9, h10, h11, h12, h13, h14, h15, h16⟩ := hI
-      close_inv h7
+      obtain ⟨h1, h2, h3, h4, h5, h6, h7, h8⟩ := hI
+      close_invA
     · facts s.ws, i, (WPc.sendErr (eval op)), hget
-      obtain ⟨h1, h2, h3, h4, h5, h6, h7, h8, h9, h10, h11, h12, h13, h14, h15, h16⟩ := hI
-      close_inv h7
+      obtain ⟨h1, h2, h3, h4, h5, h6, h7, h8⟩ := hI
+      close_invA
   · split at h
     · cases h
       facts s.ws, i, WPc.tokret, hget
-      obtain ⟨h1, h2, h3, h4, h5, h6, h7, h8, h9, h10, h11, h12, h13, h14, h15, h16⟩ := hI
-      close_inv h7
+      obtain ⟨h1, h2, h3, h4, h5, h6, h7, h8⟩ := hI
+      close_invA
     · cases h
 
-theorem inv_w_send {r : Res} (hI : Inv c s) (hget : s.ws[i]? = some (.send r))
-    (h : workerStep c s i = some s') : Inv c s' := by
+theorem invA_w_send {r : Res} (hI : InvA c s) (hget : s.ws[i]? = some (.send r))
+    (h : workerStep c s i = some s') : InvA c s' := by
   simp only [workerStep, hget] at h
   have hnc := hI.nocrash
   have ⟨hc0, hex⟩ := closes_zero_of_active hI hget (pc := .send r) rfl
-  have hgt : ¬ (s.closes > 0) := by omega
-  cases hrw : s.recvWaiting <;> cases hst : s.stop <;>
-    by_cases hroom : s.outq.length < c.outCap <;>
-    simp [sendOut, hgt, hrw, hroom, hnc, hst] at h
-  all_goals subst h
-  all_goals first
-    | (facts s.ws, i, WPc.recv, hget
-       obtain ⟨h1, h2, h3, h4, h5, h6, h7, h8, h9, h10, h11, h12, h13, h14, h15, h16⟩ := hI
-       close_inv h7
-       done)
-    | (facts s.ws, i, WPc.tokret, hget
-       obtain ⟨h1, h2, h3, h4, h5, h6, h7, h8, h9, h10, h11, h12, h13, h14, h15, h16⟩ := hI
-       close_inv h7)
+  cases hso : sendOut c s r with
+  | none => simp [hso] at h
+  | some s1 =>
+    simp only [hso] at h
+    rcases sendOut_cases hso hc0 with ⟨k, rest, hq, hs1⟩ | ⟨hq, hroom, hs1⟩ <;> subst hs1 <;>
+      cases hst : s.stop <;> simp [hnc, hst] at h <;> subst h
+    all_goals first
+      | (facts s.ws, i, WPc.recv, hget
+         obtain ⟨h1, h2, h3, h4, h5, h6, h7, h8⟩ := hI
+         close_invA
+         done)
+      | (facts s.ws, i, WPc.tokret, hget
+         obtain ⟨h1, h2, h3, h4, h5, h6, h7, h8⟩ := hI
+         close_invA)
 
-theorem inv_w_sendErr {r : Res} (hI : Inv c s) (hget : s.ws[i]? = some (.sendErr r))
-    (h : workerStep c s i = some s') : Inv c s' := by
+theorem invA_w_sendErr {r : Res} (hI : InvA c s) (hget : s.ws[i]? = some (.sendErr r))
+    (h : workerStep c s i = some s') : InvA c s' := by
   simp only [workerStep, hget] at h
   have hnc := hI.nocrash
   have ⟨hc0, hex⟩ := closes_zero_of_active hI hget (pc := .sendErr r) rfl
-  have hgt : ¬ (s.closes > 0) := by omega
   have hpan := hI.err_why (countP_pos_of WPc.isSendErr s.ws i _ hget rfl)
-  cases hrw : s.recvWaiting <;>
-    by_cases hroom : s.outq.length < c.outCap <;>
-    simp [sendOut, hgt, hrw, hroom, hnc] at h
-  all_goals subst h
-  all_goals
-    (facts s.ws, i, WPc.tokret, hget
-     obtain ⟨h1, h2, h3, h4, h5, h6, h7, h8, h9, h10, h11, h12, h13, h14, h15, h16⟩ := hI
-     close_inv h7)
+  cases hso : sendOut c s r with
+  | none => simp [hso] at h
+  | some s1 =>
+    simp only [hso] at h
+    rcases sendOut_cases hso hc0 with ⟨k, rest, hq, hs1⟩ | ⟨hq, hroom, hs1⟩ <;> subst hs1 <;>
+      simp [hnc] at h <;> subst h
+    all_goals
+      (facts s.ws, i, WPc.tokret, hget
+       obtain ⟨h1, h2, h3, h4, h5, h6, h7, h8⟩ := hI
+       close_invA)
 
-theorem inv_w_tokret (hfix : c.fixed = true) (hI : Inv c s) (hget : s.ws[i]? = some .tokret)
-    (h : workerStep c s i = some s') : Inv c s' := by
+theorem invA_w_tokret (hfix : c.fixed = true) (hI : InvA c s) (hget : s.ws[i]? = some .tokret)
+    (h : workerStep c s i = some s') : InvA c s' := by
   simp only [workerStep, hget] at h
   have ⟨hc0, hex⟩ := closes_zero_of_active hI hget (pc := .tokret) rfl
   have hgt : ¬ (s.closes > 0) := by omega
@@ -162,50 +178,44 @@ theorem inv_w_tokret (hfix : c.fixed = true) (hI : Inv c s) (hget : s.ws[i]? = s
   facts s.ws, i, WPc.done, hget
   have hpos := countP_pos_of WPc.exiting s.ws i _ hget rfl
   have hwhy := hI.exit_why hpos
-  obtain ⟨h1, h2, h3, h4, h5, h6, h7, h8, h9, h10, h11, h12, h13, h14, h15, h16⟩ := hI
+  obtain ⟨h1, h2, h3, h4, h5, h6, h7, h8⟩ := hI
   by_cases hlast : s.exited + 1 = c.threads <;> simp [exitBlock, hfix, hlast, hgt]
-  all_goals close_inv h7
+  all_goals close_invA
 
-theorem inv_producer (hI : Inv c s) (h : producerStep c s = some s') : Inv c s' := by
+theorem invA_producer {p : Nat} (hI : InvA c s) (h : producerStep c s p = some s') : InvA c s' := by
   simp only [producerStep] at h
-  obtain ⟨h1, h2, h3, h4, h5, h6, h7, h8, h9, h10, h11, h12, h13, h14, h15, h16⟩ := hI
+  obtain ⟨h1, h2, h3, h4, h5, h6, h7, h8⟩ := hI
   split at h
-  · rename_i op rest htodo
-    split at h
+  · cases h
+  · split at h
     · cases h
     · split at h
       · cases h
-        close_inv h7
+        close_invA
       · cases h
-  · rename_i htodo
-    split at h
+  · split at h
     · cases h
-      close_inv h7
+      close_invA
     · cases h
 
-theorem inv_collector (hI : Inv c s) (h : collectorStep s = some s') : Inv c s' := by
+/-- a collector's step touches nothing the workers' bookkeeping speaks about -/
+theorem invA_collector {k : Nat} (hI : InvA c s) (h : collectorStep s k = some s') : InvA c s' := by
   simp only [collectorStep] at h
-  obtain ⟨h1, h2, h3, h4, h5, h6, h7, h8, h9, h10, h11, h12, h13, h14, h15, h16⟩ := hI
   split at h
+  · cases h
   · split at h
-    · cases h
-      close_inv h7
-    · split at h
-      · cases h
-        close_inv h7
-      · cases h
-        close_inv h7
+    · cases h; exact ⟨hI.len, hI.nocrash, hI.exited_eq, hI.wg_eq, hI.closes_eq, hI.tokens, hI.exit_why, hI.err_why⟩
+    · split at h <;> cases h <;>
+        exact ⟨hI.len, hI.nocrash, hI.exited_eq, hI.wg_eq, hI.closes_eq, hI.tokens, hI.exit_why, hI.err_why⟩
   · split at h
-    · cases h
-      close_inv h7
+    · cases h; exact ⟨hI.len, hI.nocrash, hI.exited_eq, hI.wg_eq, hI.closes_eq, hI.tokens, hI.exit_why, hI.err_why⟩
     · split at h
-      · cases h
-        close_inv h7
+      · cases h; exact ⟨hI.len, hI.nocrash, hI.exited_eq, hI.wg_eq, hI.closes_eq, hI.tokens, hI.exit_why, hI.err_why⟩
       · cases h
   · cases h
 
-theorem inv_step (hfix : c.fixed = true) {a : Actor}
-    (hI : Inv c s) (h : step c s a = some s') : Inv c s' := by
+theorem invA_step (hfix : c.fixed = true) {a : Actor}
+    (hI : InvA c s) (h : step c s a = some s') : InvA c s' := by
   have hnc := hI.nocrash
   simp only [step, hnc, Option.isSome_none, Bool.false_eq_true, if_false] at h
   cases a with
@@ -215,28 +225,765 @@ theorem inv_step (hfix : c.fixed = true) {a : Actor}
     | none => simp [workerStep, hget] at h
     | some pc =>
       cases pc with
-      | idle => exact inv_w_idle hI hget h
-      | recv => exact inv_w_recv hI hget h
-      | send r => exact inv_w_send hI hget h
-      | sendErr r => exact inv_w_sendErr hI hget h
-      | tokret => exact inv_w_tokret hfix hI hget h
+      | idle => exact invA_w_idle hI hget h
+      | recv => exact invA_w_recv hI hget h
+      | send r => exact invA_w_send hI hget h
+      | sendErr r => exact invA_w_sendErr hI hget h
+      | tokret => exact invA_w_tokret hfix hI hget h
       | done => simp [workerStep, hget] at h
-  | producer => exact inv_producer hI h
-  | collector => exact inv_collector hI h
+  | producer p => exact invA_producer hI h
+  | collector k => exact invA_collector hI h
   | stopper =>
     simp only at h
-    obtain ⟨h1, h2, h3, h4, h5, h6, h7, h8, h9, h10, h11, h12, h13, h14, h15, h16⟩ := hI
+    obtain ⟨h1, h2, h3, h4, h5, h6, h7, h8⟩ := hI
     split at h
     · cases h
     · cases h
-      close_inv h7
+      close_invA
   | waiter =>
     simp only at h
-    obtain ⟨h1, h2, h3, h4, h5, h6, h7, h8, h9, h10, h11, h12, h13, h14, h15, h16⟩ := hI
+    obtain ⟨h1, h2, h3, h4, h5, h6, h7, h8⟩ := hI
     split at h
     · cases h
-      close_inv h7
+      close_invA
     · cases h
+
+theorem invA_reach (hfix : c.fixed = true) (ht : 0 < c.threads) :
+    ∀ s, Reach (sys c) s → InvA c s :=
+  inv_induction (S := sys c) (InvA c) (invA_init c ht) (fun _ _ _ hI h => invA_step hfix hI h)
+
+/-! ### the shapes of a step (no crash: layer A holds in the source state) -/
+
+inductive Shape (c : Cfg) (s : St) : Actor → St → Prop
+  | w_idle (i : Nat) (hget : s.ws[i]? = some .idle) (hw : 0 < s.work) :
+      Shape c s (.worker i) { s with work := s.work - 1, ws := s.ws.set i .recv }
+  | w_take (i : Nat) (op : Op) (rest : List Op) (hget : s.ws[i]? = some .recv) (hq : s.inq = op :: rest) :
+      Shape c s (.worker i)
+        { s with inq := rest, taken := s.taken ++ [op],
+                 ws := s.ws.set i (if op.isPan then .sendErr (eval op) else .send (eval op)) }
+  | w_closed (i : Nat) (hget : s.ws[i]? = some .recv) (hq : s.inq = []) (hcl : s.inClosed = true) :
+      Shape c s (.worker i) { s with work := s.work + 1, ws := s.ws.set i .tokret }
+  /-- a send (of a result or of a recovered panic's error) handed to the oldest waiting collector -/
+  | w_hand (i : Nat) (pc pc' : WPc) (r : Res) (w' k : Nat) (rest : List Nat)
+      (hget : s.ws[i]? = some pc) (hheld : heldOf pc = some r) (hheld' : pc' = .recv ∨ pc' = .tokret)
+      (hc0 : s.closes = 0) (hq : s.recvq = k :: rest) :
+      Shape c s (.worker i)
+        { s with handoff := s.handoff.set k (some r), recvq := rest, work := w', ws := s.ws.set i pc' }
+  /-- a send into the buffer of `out` -/
+  | w_buf (i : Nat) (pc pc' : WPc) (r : Res) (w' : Nat)
+      (hget : s.ws[i]? = some pc) (hheld : heldOf pc = some r) (hheld' : pc' = .recv ∨ pc' = .tokret)
+      (hc0 : s.closes = 0) (hq : s.recvq = []) (hroom : s.outq.length < c.outCap) :
+      Shape c s (.worker i) { s with outq := s.outq ++ [r], work := w', ws := s.ws.set i pc' }
+  | w_exit (i : Nat) (cl : Nat) (hget : s.ws[i]? = some .tokret) (hcl : cl = 1 ∨ cl = s.closes) :
+      Shape c s (.worker i)
+        { s with exited := s.exited + 1, closes := cl, wgDone := s.wgDone + 1, ws := s.ws.set i .done }
+  | p_submit (p : Nat) (op : Op) (rest : List Op) (hget : s.todo[p]? = some (op :: rest))
+      (hncl : s.inClosed = false) (hroom : s.inq.length < c.inCap) :
+      Shape c s (.producer p)
+        { s with todo := s.todo.set p rest, inq := s.inq ++ [op], subm := s.subm ++ [(p, op)] }
+  | p_close (p : Nat) (hall : allSubmitted s = true) (hncl : s.inClosed = false) (hwc : c.wantClose = true) :
+      Shape c s (.producer p) { s with inClosed := true }
+  | c_take (k : Nat) (r : Res) (rest : List Res) (hget : s.cpcs[k]? = some .ready) (hq : s.outq = r :: rest) :
+      Shape c s (.collector k)
+        { s with outq := rest, delivered := s.delivered.set k (s.delivered.getD k [] ++ [r]) }
+  | c_seen_ready (k : Nat) (hget : s.cpcs[k]? = some .ready) (hq : s.outq = []) (hcl : s.closes > 0) :
+      Shape c s (.collector k) { s with cpcs := s.cpcs.set k .closedSeen }
+  | c_wait (k : Nat) (hget : s.cpcs[k]? = some .ready) (hq : s.outq = []) (hcl : s.closes = 0) :
+      Shape c s (.collector k) { s with recvq := s.recvq ++ [k], cpcs := s.cpcs.set k .receiving }
+  | c_hand (k : Nat) (r : Res) (hget : s.cpcs[k]? = some .receiving) (hh : s.handoff.getD k none = some r) :
+      Shape c s (.collector k)
+        { s with handoff := s.handoff.set k none,
+                 delivered := s.delivered.set k (s.delivered.getD k [] ++ [r]),
+                 cpcs := s.cpcs.set k .ready }
+  | c_seen_recv (k : Nat) (hget : s.cpcs[k]? = some .receiving) (hh : s.handoff.getD k none = none)
+      (hcl : s.closes > 0) :
+      Shape c s (.collector k) { s with recvq := s.recvq.erase k, cpcs := s.cpcs.set k .closedSeen }
+  | stop (hst : s.stop = false) : Shape c s .stopper { s with stop := true }
+  | wait (hwr : s.waitReturned = false) (hwg : s.wgDone = c.threads) :
+      Shape c s .waiter { s with waitReturned := true }
+
+theorem shape_of_step (hfix : c.fixed = true) {a : Actor} (hA : InvA c s)
+    (h : step c s a = some s') : Shape c s a s' := by
+  have hnc := hA.nocrash
+  simp only [step, hnc, Option.isSome_none, Bool.false_eq_true, if_false] at h
+  cases a with
+  | worker i =>
+    simp only at h
+    cases hget : s.ws[i]? with
+    | none => simp [workerStep, hget] at h
+    | some pc =>
+      cases pc with
+      | idle =>
+        simp only [workerStep, hget] at h
+        split at h
+        · rename_i hw; cases h; exact .w_idle i hget hw
+        · cases h
+      | recv =>
+        simp only [workerStep, hget] at h
+        split at h
+        · rename_i op rest hq; cases h; exact .w_take i op rest hget hq
+        · rename_i hq
+          split at h
+          · rename_i hcl; cases h; exact .w_closed i hget hq hcl
+          · cases h
+      | send r =>
+        simp only [workerStep, hget] at h
+        have ⟨hc0, _⟩ := closes_zero_of_active hA hget (pc := .send r) rfl
+        cases hso : sendOut c s r with
+        | none => simp [hso] at h
+        | some s1 =>
+          simp only [hso] at h
+          rcases sendOut_cases hso hc0 with ⟨k, rest, hq, hs1⟩ | ⟨hq, hroom, hs1⟩ <;> subst hs1 <;>
+            cases hst : s.stop <;> simp [hnc, hst] at h <;> subst h
+          · have hw := Shape.w_hand (c := c) i (.send r) .recv r s.work k rest hget rfl (Or.inl rfl) hc0 hq
+            simp only [hnc, hst] at hw; exact hw
+          · have hw := Shape.w_hand (c := c) i (.send r) .tokret r (s.work + 1) k rest hget rfl (Or.inr rfl) hc0 hq
+            simp only [hnc, hst] at hw; exact hw
+          · have hw := Shape.w_buf (c := c) i (.send r) .recv r s.work hget rfl (Or.inl rfl) hc0 hq hroom
+            simp only [hnc, hst] at hw; exact hw
+          · have hw := Shape.w_buf (c := c) i (.send r) .tokret r (s.work + 1) hget rfl (Or.inr rfl) hc0 hq hroom
+            simp only [hnc, hst] at hw; exact hw
+      | sendErr r =>
+        simp only [workerStep, hget] at h
+        have ⟨hc0, _⟩ := closes_zero_of_active hA hget (pc := .sendErr r) rfl
+        cases hso : sendOut c s r with
+        | none => simp [hso] at h
+        | some s1 =>
+          simp only [hso] at h
+          rcases sendOut_cases hso hc0 with ⟨k, rest, hq, hs1⟩ | ⟨hq, hroom, hs1⟩ <;> subst hs1 <;>
+            simp [hnc] at h <;> subst h
+          · have hw := Shape.w_hand (c := c) i (.sendErr r) .tokret r (s.work + 1) k rest hget rfl (Or.inr rfl) hc0 hq
+            simp only [hnc] at hw; exact hw
+          · have hw := Shape.w_buf (c := c) i (.sendErr r) .tokret r (s.work + 1) hget rfl (Or.inr rfl) hc0 hq hroom
+            simp only [hnc] at hw; exact hw
+      | tokret =>
+        simp only [workerStep, hget] at h
+        have ⟨hc0, _⟩ := closes_zero_of_active hA hget (pc := .tokret) rfl
+        have hgt : ¬ (s.closes > 0) := by omega
+        cases h
+        by_cases hlast : s.exited + 1 = c.threads
+        · simp only [exitBlock, hfix, hlast, hgt, if_true, if_false, beq_self_eq_true]
+          have hw := Shape.w_exit (c := c) (s := s) i 1 hget (Or.inl rfl)
+          simp only [hlast] at hw; exact hw
+        · have : (s.exited + 1 == c.threads) = false := by simpa using hlast
+          simp only [exitBlock, hfix, this, if_true, Bool.false_eq_true, if_false]
+          have hw := Shape.w_exit (c := c) (s := s) i s.closes hget (Or.inr rfl)
+          simpa using hw
+      | done => simp [workerStep, hget] at h
+  | producer p =>
+    simp only [producerStep] at h
+    split at h
+    · cases h
+    · rename_i op rest hget
+      split at h
+      · cases h
+      · rename_i hncl
+        split at h
+        · rename_i hroom; cases h
+          exact .p_submit p op rest hget (by simpa using hncl) hroom
+        · cases h
+    · split at h
+      · rename_i hcond
+        cases h
+        simp at hcond
+        exact .p_close p hcond.2 hcond.1.2 hcond.1.1.2
+      · cases h
+  | collector k =>
+    simp only [collectorStep] at h
+    split at h
+    · cases h
+    · rename_i hget
+      split at h
+      · rename_i r rest hq; cases h; exact .c_take k r rest hget hq
+      · rename_i hq
+        split at h
+        · rename_i hcl; cases h; exact .c_seen_ready k hget hq hcl
+        · rename_i hcl; cases h; exact .c_wait k hget hq (by omega)
+    · rename_i hget
+      split at h
+      · rename_i r hh; cases h; exact .c_hand k r hget hh
+      · rename_i hh
+        split at h
+        · rename_i hcl; cases h; exact .c_seen_recv k hget hh hcl
+        · cases h
+    · cases h
+  | stopper =>
+    simp only at h
+    split at h
+    · cases h
+    · rename_i hst; cases h
+      have hw := Shape.stop (c := c) (s := s) (by simpa using hst)
+      simp only [hnc] at hw; exact hw
+  | waiter =>
+    simp only at h
+    split at h
+    · rename_i hw; cases h
+      simp at hw
+      have hw' := Shape.wait (c := c) (s := s) hw.1 hw.2
+      simp only [hnc] at hw'; exact hw'
+    · cases h
+
+/-! ### layer C: `out` with several receivers -/
+
+theorem getD_set {α : Type} (l : List α) (k j : Nat) (v d : α) :
+    (l.set k v).getD j d = if k = j then (if k < l.length then v else d) else l.getD j d := by
+  simp only [List.getD_eq_getElem?_getD, List.getElem?_set]
+  split
+  · split <;> simp_all
+  · rfl
+
+theorem lt_of_getElem? {α : Type} {l : List α} {k : Nat} {a : α} (h : l[k]? = some a) : k < l.length := by
+  rcases Nat.lt_or_ge k l.length with h' | h'
+  · exact h'
+  · rw [List.getElem?_eq_none h'] at h; cases h
+
+structure InvC (c : Cfg) (s : St) : Prop where
+  clen : s.cpcs.length = c.ncoll
+  hlen : s.handoff.length = c.ncoll
+  dlen : s.delivered.length = c.ncoll
+  rq_coh : ∀ k : Nat, k ∈ s.recvq → s.cpcs[k]? = some CPc.receiving ∧ s.handoff.getD k none = none
+  rq_nodup : s.recvq.Nodup
+  ho_coh : ∀ k : Nat, (s.handoff.getD k none).isSome = true → s.cpcs[k]? = some CPc.receiving
+  recv_coh : ∀ k : Nat, s.cpcs[k]? = some CPc.receiving → k ∈ s.recvq ∨ (s.handoff.getD k none).isSome = true
+  recv_empty : s.recvq ≠ [] → s.outq = []
+  seen_coh : ∀ k : Nat, s.cpcs[k]? = some CPc.closedSeen → s.outq = [] ∧ s.closes = 1
+
+theorem invC_init (c : Cfg) : InvC c (init c) := by
+  constructor
+  · simp [init]
+  · simp [init]
+  · simp [init]
+  · intro k h; simp [init] at h
+  · simp [init]
+  · intro k h
+    simp [init, List.getD_eq_getElem?_getD, List.getElem?_replicate] at h
+    split at h <;> simp at h
+  · intro k h
+    simp [init, List.getElem?_replicate] at h
+  · intro h; simp [init] at h
+  · intro k h
+    simp [init, List.getElem?_replicate] at h
+
+/-- the C-relevant components are untouched -/
+theorem invC_congr {s s' : St} (hI : InvC c s)
+    (h1 : s'.cpcs = s.cpcs) (h2 : s'.handoff = s.handoff) (h3 : s'.delivered = s.delivered)
+    (h4 : s'.recvq = s.recvq) (h5 : s'.outq = s.outq) (h6 : s'.closes = s.closes) : InvC c s' := by
+  constructor
+  · rw [h1]; exact hI.clen
+  · rw [h2]; exact hI.hlen
+  · rw [h3]; exact hI.dlen
+  · rw [h4, h1, h2]; exact hI.rq_coh
+  · rw [h4]; exact hI.rq_nodup
+  · rw [h2, h1]; exact hI.ho_coh
+  · rw [h1, h4, h2]; exact hI.recv_coh
+  · rw [h4, h5]; exact hI.recv_empty
+  · rw [h1, h5, h6]; exact hI.seen_coh
+
+theorem closes_le_one (hA : InvA c s) (h : s.closes > 0) : s.closes = 1 := by
+  have := hA.closes_eq
+  split at this <;> omega
+
+theorem invC_step (hfix : c.fixed = true) {a : Actor} (hA : InvA c s) (hI : InvC c s)
+    (h : step c s a = some s') : InvC c s' := by
+  cases shape_of_step hfix hA h with
+  | w_idle i hget hw => exact invC_congr hI rfl rfl rfl rfl rfl rfl
+  | w_take i op rest hget hq => exact invC_congr hI rfl rfl rfl rfl rfl rfl
+  | w_closed i hget hq hcl => exact invC_congr hI rfl rfl rfl rfl rfl rfl
+  | w_hand i pc pc' r w' k rest hget hheld hheld' hc0 hq =>
+    have hk := hI.rq_coh k (by rw [hq]; simp)
+    have hklt : k < s.handoff.length := by rw [hI.hlen, ← hI.clen]; exact lt_of_getElem? hk.1
+    have hnd : k ∉ rest ∧ rest.Nodup := by
+      have := hI.rq_nodup; rw [hq] at this; exact List.nodup_cons.1 this
+    constructor
+    · exact hI.clen
+    · simp [hI.hlen]
+    · exact hI.dlen
+    · intro j hj
+      have hjk : k ≠ j := fun e => hnd.1 (e ▸ hj)
+      have := hI.rq_coh j (by rw [hq]; exact List.mem_cons_of_mem _ hj)
+      refine ⟨this.1, ?_⟩
+      show (s.handoff.set k (some r)).getD j none = none
+      rw [getD_set, if_neg hjk]; exact this.2
+    · exact hnd.2
+    · intro j hj
+      show s.cpcs[j]? = some CPc.receiving
+      have hj' : ((s.handoff.set k (some r)).getD j none).isSome = true := hj
+      rw [getD_set] at hj'
+      split at hj'
+      · rename_i e; subst e; exact hk.1
+      · exact hI.ho_coh j hj'
+    · intro j hj
+      show j ∈ rest ∨ ((s.handoff.set k (some r)).getD j none).isSome = true
+      rw [getD_set]
+      by_cases e : k = j
+      · subst e; right; simp [hklt]
+      · rw [if_neg e]
+        rcases hI.recv_coh j hj with h' | h'
+        · rw [hq] at h'
+          rcases List.mem_cons.1 h' with h'' | h''
+          · exact absurd h''.symm e
+          · exact Or.inl h''
+        · exact Or.inr h'
+    · intro hne
+      exact hI.recv_empty (by rw [hq]; simp)
+    · exact hI.seen_coh
+  | w_buf i pc pc' r w' hget hheld hheld' hc0 hq hroom =>
+    constructor
+    · exact hI.clen
+    · exact hI.hlen
+    · exact hI.dlen
+    · exact hI.rq_coh
+    · exact hI.rq_nodup
+    · exact hI.ho_coh
+    · exact hI.recv_coh
+    · intro hne; exact absurd hq hne
+    · intro j hj
+      have := (hI.seen_coh j hj).2
+      omega
+  | w_exit i cl hget hcl =>
+    constructor
+    · exact hI.clen
+    · exact hI.hlen
+    · exact hI.dlen
+    · exact hI.rq_coh
+    · exact hI.rq_nodup
+    · exact hI.ho_coh
+    · exact hI.recv_coh
+    · exact hI.recv_empty
+    · intro j hj
+      have := hI.seen_coh j hj
+      refine ⟨this.1, ?_⟩
+      show cl = 1
+      rcases hcl with h' | h'
+      · exact h'
+      · rw [h']; exact this.2
+  | p_submit p op rest hget hncl hroom => exact invC_congr hI rfl rfl rfl rfl rfl rfl
+  | p_close p hall hncl hwc => exact invC_congr hI rfl rfl rfl rfl rfl rfl
+  | c_take k r rest hget hq =>
+    have hrq : s.recvq = [] := by
+      cases hr : s.recvq with
+      | nil => rfl
+      | cons a l => have := hI.recv_empty (by rw [hr]; simp); rw [this] at hq; cases hq
+    constructor
+    · exact hI.clen
+    · exact hI.hlen
+    · simp [hI.dlen]
+    · exact hI.rq_coh
+    · exact hI.rq_nodup
+    · exact hI.ho_coh
+    · exact hI.recv_coh
+    · intro hne; exact absurd hrq hne
+    · intro j hj
+      have := (hI.seen_coh j hj).1
+      rw [this] at hq; cases hq
+  | c_seen_ready k hget hq hcl =>
+    have hklt := lt_of_getElem? hget
+    have hne : ∀ j, s.cpcs[j]? = some CPc.receiving → k ≠ j := by
+      intro j hj e; subst e; rw [hget] at hj; cases hj
+    have keep : ∀ j, k ≠ j → (s.cpcs.set k .closedSeen)[j]? = s.cpcs[j]? := by
+      intro j e; rw [List.getElem?_set, if_neg e]
+    constructor
+    · simp [hI.clen]
+    · exact hI.hlen
+    · exact hI.dlen
+    · intro j hj
+      have := hI.rq_coh j hj
+      exact ⟨by show (s.cpcs.set k .closedSeen)[j]? = _; rw [keep j (hne j this.1)]; exact this.1, this.2⟩
+    · exact hI.rq_nodup
+    · intro j hj
+      have := hI.ho_coh j hj
+      show (s.cpcs.set k .closedSeen)[j]? = _
+      rw [keep j (hne j this)]; exact this
+    · intro j hj
+      have hj' : (s.cpcs.set k .closedSeen)[j]? = some CPc.receiving := hj
+      by_cases e : k = j
+      · subst e; simp [hklt] at hj'
+      · rw [keep j e] at hj'; exact hI.recv_coh j hj'
+    · exact hI.recv_empty
+    · intro j hj
+      have hj' : (s.cpcs.set k .closedSeen)[j]? = some CPc.closedSeen := hj
+      by_cases e : k = j
+      · exact ⟨hq, closes_le_one (s := s) hA hcl⟩
+      · rw [keep j e] at hj'; exact hI.seen_coh j hj'
+  | c_wait k hget hq hcl =>
+    have hklt := lt_of_getElem? hget
+    have hne : ∀ j, s.cpcs[j]? = some CPc.receiving → k ≠ j := by
+      intro j hj e; subst e; rw [hget] at hj; cases hj
+    have keep : ∀ j, k ≠ j → (s.cpcs.set k .receiving)[j]? = s.cpcs[j]? := by
+      intro j e; rw [List.getElem?_set, if_neg e]
+    have hknot : k ∉ s.recvq := fun hm => hne k (hI.rq_coh k hm).1 rfl
+    have hkh : s.handoff.getD k none = none := by
+      cases hh : s.handoff.getD k none with
+      | none => rfl
+      | some r => exact absurd rfl (hne k (hI.ho_coh k (by rw [hh]; rfl)))
+    constructor
+    · simp [hI.clen]
+    · exact hI.hlen
+    · exact hI.dlen
+    · intro j hj
+      have hj' : j ∈ s.recvq ++ [k] := hj
+      rcases List.mem_append.1 hj' with h' | h'
+      · have := hI.rq_coh j h'
+        exact ⟨by show (s.cpcs.set k .receiving)[j]? = _; rw [keep j (hne j this.1)]; exact this.1, this.2⟩
+      · simp at h'; subst h'
+        exact ⟨by show (s.cpcs.set j .receiving)[j]? = _; simp [hklt], hkh⟩
+    · show (s.recvq ++ [k]).Nodup
+      rw [List.nodup_append]
+      refine ⟨hI.rq_nodup, by simp, ?_⟩
+      intro a ha b hb; simp at hb; subst hb
+      intro e; subst e; exact hknot ha
+    · intro j hj
+      have := hI.ho_coh j hj
+      show (s.cpcs.set k .receiving)[j]? = _
+      rw [keep j (hne j this)]; exact this
+    · intro j hj
+      have hj' : (s.cpcs.set k .receiving)[j]? = some CPc.receiving := hj
+      show j ∈ s.recvq ++ [k] ∨ _
+      by_cases e : k = j
+      · subst e; left; simp
+      · rw [keep j e] at hj'
+        rcases hI.recv_coh j hj' with h' | h'
+        · left; exact List.mem_append_left _ h'
+        · right; exact h'
+    · intro _; exact hq
+    · intro j hj
+      have hj' : (s.cpcs.set k .receiving)[j]? = some CPc.closedSeen := hj
+      by_cases e : k = j
+      · subst e; simp [hklt] at hj'
+      · rw [keep j e] at hj'; exact hI.seen_coh j hj'
+  | c_hand k r hget hh =>
+    have hklt := lt_of_getElem? hget
+    have keep : ∀ j, k ≠ j → (s.cpcs.set k .ready)[j]? = s.cpcs[j]? := by
+      intro j e; rw [List.getElem?_set, if_neg e]
+    have hknot : k ∉ s.recvq := by
+      intro hm; have := (hI.rq_coh k hm).2; rw [hh] at this; cases this
+    constructor
+    · simp [hI.clen]
+    · simp [hI.hlen]
+    · simp [hI.dlen]
+    · intro j hj
+      have hjk : k ≠ j := fun e => hknot (e ▸ hj)
+      have := hI.rq_coh j hj
+      refine ⟨by show (s.cpcs.set k .ready)[j]? = _; rw [keep j hjk]; exact this.1, ?_⟩
+      show (s.handoff.set k none).getD j none = none
+      rw [getD_set, if_neg hjk]; exact this.2
+    · exact hI.rq_nodup
+    · intro j hj
+      have hj' : ((s.handoff.set k none).getD j none).isSome = true := hj
+      rw [getD_set] at hj'
+      by_cases e : k = j
+      · rw [if_pos e] at hj'; split at hj' <;> simp at hj'
+      · rw [if_neg e] at hj'
+        show (s.cpcs.set k .ready)[j]? = _
+        rw [keep j e]; exact hI.ho_coh j hj'
+    · intro j hj
+      have hj' : (s.cpcs.set k .ready)[j]? = some CPc.receiving := hj
+      by_cases e : k = j
+      · subst e; simp [hklt] at hj'
+      · rw [keep j e] at hj'
+        show j ∈ s.recvq ∨ ((s.handoff.set k none).getD j none).isSome = true
+        rw [getD_set, if_neg e]; exact hI.recv_coh j hj'
+    · exact hI.recv_empty
+    · intro j hj
+      have hj' : (s.cpcs.set k .ready)[j]? = some CPc.closedSeen := hj
+      by_cases e : k = j
+      · subst e; simp [hklt] at hj'
+      · rw [keep j e] at hj'; exact hI.seen_coh j hj'
+  | c_seen_recv k hget hh hcl =>
+    have hklt := lt_of_getElem? hget
+    have keep : ∀ j, k ≠ j → (s.cpcs.set k .closedSeen)[j]? = s.cpcs[j]? := by
+      intro j e; rw [List.getElem?_set, if_neg e]
+    have hkin : k ∈ s.recvq := by
+      rcases hI.recv_coh k hget with h' | h'
+      · exact h'
+      · rw [hh] at h'; cases h'
+    constructor
+    · simp [hI.clen]
+    · exact hI.hlen
+    · exact hI.dlen
+    · intro j hj
+      have hj' : j ∈ s.recvq.erase k := hj
+      rw [hI.rq_nodup.mem_erase_iff] at hj'
+      have := hI.rq_coh j hj'.2
+      exact ⟨by show (s.cpcs.set k .closedSeen)[j]? = _; rw [keep j (Ne.symm hj'.1)]; exact this.1, this.2⟩
+    · exact hI.rq_nodup.erase k
+    · intro j hj
+      have hjk : k ≠ j := by intro e; subst e; rw [hh] at hj; cases hj
+      show (s.cpcs.set k .closedSeen)[j]? = _
+      rw [keep j hjk]; exact hI.ho_coh j hj
+    · intro j hj
+      have hj' : (s.cpcs.set k .closedSeen)[j]? = some CPc.receiving := hj
+      by_cases e : k = j
+      · subst e; simp [hklt] at hj'
+      · rw [keep j e] at hj'
+        rcases hI.recv_coh j hj' with h' | h'
+        · left; show j ∈ s.recvq.erase k
+          rw [hI.rq_nodup.mem_erase_iff]; exact ⟨Ne.symm e, h'⟩
+        · right; exact h'
+    · intro hne
+      apply hI.recv_empty
+      intro hnil; rw [hnil] at hkin; cases hkin
+    · intro j hj
+      have hj' : (s.cpcs.set k .closedSeen)[j]? = some CPc.closedSeen := hj
+      by_cases e : k = j
+      · refine ⟨hI.recv_empty ?_, closes_le_one (s := s) hA hcl⟩
+        intro hnil; rw [hnil] at hkin; cases hkin
+      · rw [keep j e] at hj'; exact hI.seen_coh j hj'
+  | stop hst => exact invC_congr hI rfl rfl rfl rfl rfl rfl
+  | wait hwr hwg => exact invC_congr hI rfl rfl rfl rfl rfl rfl
+
+theorem invC_reach (hfix : c.fixed = true) (ht : 0 < c.threads) :
+    ∀ s, Reach (sys c) s → InvC c s :=
+  inv_induction' (S := sys c) (InvC c) (invC_init c)
+    (fun _ _ _ hr hI h => invC_step hfix (invA_reach hfix ht _ hr) hI h)
+
+/-! ### layer B: the data -/
+
+theorem count_flatten_set {α : Type} [BEq α] (l : List (List α)) (k : Nat) (a b : List α)
+    (h : l[k]? = some a) (x : α) :
+    (l.set k b).flatten.count x + a.count x = l.flatten.count x + b.count x := by
+  induction l generalizing k with
+  | nil => simp at h
+  | cons y ys ih =>
+    cases k with
+    | zero =>
+      simp at h; subst h
+      simp only [List.set_cons_zero, List.flatten_cons, List.count_append]; omega
+    | succ n =>
+      simp at h
+      have := ih n h
+      simp only [List.set_cons_succ, List.flatten_cons, List.count_append]; omega
+
+theorem getD_of_getElem? {α : Type} {l : List α} {k : Nat} {a d : α} (h : l[k]? = some a) :
+    l.getD k d = a := by
+  simp [List.getD_eq_getElem?_getD, h]
+
+theorem getElem?_of_getD_some {l : List (Option Res)} {k : Nat} {r : Res}
+    (h : l.getD k none = some r) : l[k]? = some (some r) := by
+  rw [List.getD_eq_getElem?_getD] at h
+  cases hk : l[k]? with
+  | none => rw [hk] at h; cases h
+  | some v => rw [hk] at h; simp at h; rw [h]
+
+theorem getElem?_of_getD_none {l : List (Option Res)} {k : Nat} (hlt : k < l.length)
+    (h : l.getD k none = none) : l[k]? = some none := by
+  rw [List.getD_eq_getElem?_getD] at h
+  have : l[k]? = some l[k] := by simp [hlt]
+  rw [this] at h ⊢; simp at h; rw [h]
+
+theorem handed_set_some {l : List (Option Res)} {k : Nat} (h : l[k]? = some none) (r x : Res) :
+    ((l.set k (some r)).filterMap id).count x = (l.filterMap id).count x + [r].count x := by
+  have := count_filterMap_set (id : Option Res → Option Res) l k none (some r) h x
+  simp only [id, Option.toList] at this
+  simp only [List.count_nil, Nat.zero_add] at this
+  omega
+
+theorem handed_set_none {l : List (Option Res)} {k : Nat} {r : Res} (h : l[k]? = some (some r)) (x : Res) :
+    ((l.set k none).filterMap id).count x + [r].count x = (l.filterMap id).count x := by
+  have := count_filterMap_set (id : Option Res → Option Res) l k (some r) none h x
+  simp only [id, Option.toList] at this
+  simp only [List.count_nil, Nat.zero_add] at this
+  omega
+
+structure InvB (c : Cfg) (s : St) : Prop where
+  tlen : s.todo.length = c.prods.length
+  counts : ∀ x, (results s).count x = (s.taken.map eval).count x
+  fifo : s.taken ++ s.inq = s.subm.map Prod.snd
+  perprod : ∀ p : Nat, submittedBy s p ++ s.todo.getD p [] = c.prods.getD p []
+  mset : ∀ x, (s.taken ++ s.inq ++ s.todo.flatten).count x = c.ops.count x
+  closedTodo : s.inClosed = true → allSubmitted s = true
+  subm_ids : ∀ e ∈ s.subm, e.1 < c.prods.length
+
+theorem flatten_replicate_nil {α : Type} (n : Nat) : (List.replicate n ([] : List α)).flatten = [] := by
+  induction n with
+  | zero => rfl
+  | succ n ih => simp [List.replicate_succ, ih]
+
+theorem invB_init (c : Cfg) : InvB c (init c) := by
+  have h4 := filterMap_replicate_none heldOf WPc.idle c.threads rfl
+  have h5 := filterMap_replicate_none (id : Option Res → Option Res) none c.ncoll rfl
+  constructor
+  · simp [init]
+  · intro x; simp [init, results, held, handed, allDelivered, h4, h5]
+  · simp [init]
+  · intro p; simp [init, submittedBy]
+  · intro x; simp [init, Cfg.ops]
+  · intro h; simp [init] at h
+  · intro e h; simp [init] at h
+
+/-- the B-relevant components are untouched -/
+theorem invB_congr {s s' : St} (hI : InvB c s)
+    (h1 : s'.todo = s.todo) (h2 : s'.inq = s.inq) (h3 : s'.taken = s.taken) (h4 : s'.subm = s.subm)
+    (h5 : s'.inClosed = s.inClosed) (h6 : ∀ x, (results s').count x = (results s).count x) : InvB c s' := by
+  constructor
+  · rw [h1]; exact hI.tlen
+  · intro x; rw [h6, h3]; exact hI.counts x
+  · rw [h3, h2, h4]; exact hI.fifo
+  · intro p; simp only [submittedBy, h4, h1]; exact hI.perprod p
+  · rw [h3, h2, h1]; exact hI.mset
+  · rw [h5]; simp only [allSubmitted, h1]; exact hI.closedTodo
+  · rw [h4]; exact hI.subm_ids
+
+theorem results_count (s : St) (x : Res) :
+    (results s).count x = (held s).count x + s.outq.count x + (handed s).count x + (allDelivered s).count x := by
+  simp [results, List.count_append]; omega
+
+theorem invB_step (hfix : c.fixed = true) {a : Actor} (hA : InvA c s) (hC : InvC c s) (hI : InvB c s)
+    (h : step c s a = some s') : InvB c s' := by
+  cases shape_of_step hfix hA h with
+  | w_idle i hget hw =>
+    refine invB_congr hI rfl rfl rfl rfl rfl ?_
+    intro x
+    have := (set_facts s.ws i _ WPc.recv hget).2.2.2.2 x
+    simp only [results_count, held, handed, allDelivered, heldOf] at this ⊢
+    simp at this; omega
+  | w_take i op rest hget hq =>
+    have hP := (set_facts s.ws i _ (if op.isPan then WPc.sendErr (eval op) else WPc.send (eval op)) hget).2.2.2.2
+    have hheld : heldOf (if op.isPan then WPc.sendErr (eval op) else WPc.send (eval op)) = some (eval op) := by
+      cases op.isPan <;> rfl
+    constructor
+    · exact hI.tlen
+    · intro x
+      have h1 := hP x
+      have h2 := hI.counts x
+      rw [hheld] at h1
+      simp only [results_count, held, handed, allDelivered, heldOf] at h1 h2 ⊢
+      simp only [List.map_append, List.count_append, List.map_cons, List.map_nil] at h1 h2 ⊢
+      simp at h1; omega
+    · show (s.taken ++ [op]) ++ rest = _
+      rw [← hI.fifo, hq]; simp
+    · exact hI.perprod
+    · intro x
+      have := hI.mset x
+      rw [hq] at this
+      show ((s.taken ++ [op]) ++ rest ++ s.todo.flatten).count x = _
+      simpa [List.count_append, List.count_cons] using this
+    · exact hI.closedTodo
+    · exact hI.subm_ids
+  | w_closed i hget hq hcl =>
+    refine invB_congr hI rfl rfl rfl rfl rfl ?_
+    intro x
+    have := (set_facts s.ws i _ WPc.tokret hget).2.2.2.2 x
+    simp only [results_count, held, handed, allDelivered, heldOf] at this ⊢
+    simp at this; omega
+  | w_hand i pc pc' r w' k rest hget hheld hheld' hc0 hq =>
+    have hk := hC.rq_coh k (by rw [hq]; simp)
+    have hklt : k < s.handoff.length := by rw [hC.hlen, ← hC.clen]; exact lt_of_getElem? hk.1
+    have hkn := getElem?_of_getD_none hklt hk.2
+    refine invB_congr hI rfl rfl rfl rfl rfl ?_
+    intro x
+    have h1 := (set_facts s.ws i _ pc' hget).2.2.2.2 x
+    have h2 := handed_set_some hkn r x
+    have hheld'' : heldOf pc' = none := by rcases hheld' with e | e <;> subst e <;> rfl
+    rw [hheld, hheld''] at h1
+    simp only [Option.toList, List.count_nil] at h1
+    simp only [results_count, held, handed, allDelivered] at h1 h2 ⊢
+    omega
+  | w_buf i pc pc' r w' hget hheld hheld' hc0 hq hroom =>
+    refine invB_congr hI rfl rfl rfl rfl rfl ?_
+    intro x
+    have h1 := (set_facts s.ws i _ pc' hget).2.2.2.2 x
+    have hheld'' : heldOf pc' = none := by rcases hheld' with e | e <;> subst e <;> rfl
+    rw [hheld, hheld''] at h1
+    simp only [Option.toList, List.count_nil] at h1
+    simp only [results_count, held, handed, allDelivered, List.count_append] at h1 ⊢
+    omega
+  | w_exit i cl hget hcl =>
+    refine invB_congr hI rfl rfl rfl rfl rfl ?_
+    intro x
+    have := (set_facts s.ws i _ WPc.done hget).2.2.2.2 x
+    simp only [results_count, held, handed, allDelivered, heldOf] at this ⊢
+    simp at this; omega
+  | p_submit p op rest hget hncl hroom =>
+    have hplt := lt_of_getElem? hget
+    constructor
+    · simp [hI.tlen]
+    · exact hI.counts
+    · show s.taken ++ (s.inq ++ [op]) = (s.subm ++ [(p, op)]).map Prod.snd
+      rw [← List.append_assoc, hI.fifo]; simp
+    · intro q
+      have := hI.perprod q
+      show ((s.subm ++ [(p, op)]).filter (·.1 == q)).map Prod.snd ++ (s.todo.set p rest).getD q [] = _
+      rw [getD_set, List.filter_append, List.map_append]
+      by_cases e : p = q
+      · subst e
+        rw [getD_of_getElem? hget] at this
+        simp only [submittedBy] at this
+        rw [← this]
+        simp [hplt]
+      · have e' : (p == q) = false := by simpa using e
+        rw [if_neg e]
+        simp only [submittedBy] at this
+        rw [← this]
+        simp [e']
+    · intro x
+      have h1 := hI.mset x
+      have h2 := count_flatten_set s.todo p (op :: rest) rest hget x
+      show (s.taken ++ (s.inq ++ [op]) ++ (s.todo.set p rest).flatten).count x = _
+      simp only [List.count_append, List.count_cons, List.count_nil] at h1 h2 ⊢
+      omega
+    · intro hcl
+      have : s.inClosed = true := hcl
+      rw [hncl] at this; cases this
+    · intro e he
+      have he' : e ∈ s.subm ++ [(p, op)] := he
+      rcases List.mem_append.1 he' with h' | h'
+      · exact hI.subm_ids e h'
+      · simp at h'; subst h'; rw [← hI.tlen]; exact hplt
+  | p_close p hall hncl hwc =>
+    constructor
+    · exact hI.tlen
+    · exact hI.counts
+    · exact hI.fifo
+    · exact hI.perprod
+    · exact hI.mset
+    · intro _; exact hall
+    · exact hI.subm_ids
+  | c_take k r rest hget hq =>
+    have hklt : k < s.delivered.length := by rw [hC.dlen, ← hC.clen]; exact lt_of_getElem? hget
+    have hdk : s.delivered[k]? = some (s.delivered.getD k []) := by
+      simp [List.getD_eq_getElem?_getD, hklt]
+    refine invB_congr hI rfl rfl rfl rfl rfl ?_
+    intro x
+    have h2 := count_flatten_set s.delivered k _ (s.delivered.getD k [] ++ [r]) hdk x
+    have h3 : (r :: rest).count x = [r].count x + rest.count x := by
+      rw [← List.count_append]; rfl
+    simp only [results_count, held, handed, allDelivered, hq, List.count_append] at h2 ⊢
+    omega
+  | c_seen_ready k hget hq hcl => exact invB_congr hI rfl rfl rfl rfl rfl (fun _ => rfl)
+  | c_wait k hget hq hcl => exact invB_congr hI rfl rfl rfl rfl rfl (fun _ => rfl)
+  | c_hand k r hget hh =>
+    have hklt : k < s.delivered.length := by rw [hC.dlen, ← hC.clen]; exact lt_of_getElem? hget
+    have hdk : s.delivered[k]? = some (s.delivered.getD k []) := by
+      simp [List.getD_eq_getElem?_getD, hklt]
+    have hks := getElem?_of_getD_some hh
+    refine invB_congr hI rfl rfl rfl rfl rfl ?_
+    intro x
+    have h1 := handed_set_none hks x
+    have h2 := count_flatten_set s.delivered k _ (s.delivered.getD k [] ++ [r]) hdk x
+    simp only [results_count, held, handed, allDelivered, List.count_append] at h1 h2 ⊢
+    omega
+  | c_seen_recv k hget hh hcl => exact invB_congr hI rfl rfl rfl rfl rfl (fun _ => rfl)
+  | stop hst => exact invB_congr hI rfl rfl rfl rfl rfl (fun _ => rfl)
+  | wait hwr hwg => exact invB_congr hI rfl rfl rfl rfl rfl (fun _ => rfl)
+
+theorem invB_reach (hfix : c.fixed = true) (ht : 0 < c.threads) :
+    ∀ s, Reach (sys c) s → InvB c s :=
+  inv_induction' (S := sys c) (InvB c) (invB_init c)
+    (fun _ _ _ hr hI h => invB_step hfix (invA_reach hfix ht _ hr) (invC_reach hfix ht _ hr) hI h)
+
+/-! ### the three layers together -/
+
+structure Inv (c : Cfg) (s : St) : Prop where
+  a : InvA c s
+  b : InvB c s
+  c' : InvC c s
+
+theorem inv_init (c : Cfg) (ht : 0 < c.threads) : Inv c (init c) :=
+  ⟨invA_init c ht, invB_init c, invC_init c⟩
+
+theorem inv_step (hfix : c.fixed = true) {a : Actor} (hI : Inv c s) (h : step c s a = some s') : Inv c s' :=
+  ⟨invA_step hfix hI.a h, invB_step hfix hI.a hI.c' hI.b h, invC_step hfix hI.a hI.c' h⟩
 
 /-- the invariant holds in every reachable state of the repaired protocol -/
 theorem inv_reach (hfix : c.fixed = true) (ht : 0 < c.threads) :
@@ -253,161 +1000,150 @@ def crank : CPc → Nat
 
 def rankSum (ws : List WPc) : Nat := (ws.map rank).sum
 
+def crankSum (cs : List CPc) : Nat := (cs.map crank).sum
+
+/-- operations not yet submitted -/
+def todoLen (todo : List (List Op)) : Nat := (todo.map List.length).sum
+
+/-- hand-overs under way -/
+def nHand (ho : List (Option Res)) : Nat := ho.countP Option.isSome
+
 def mu (c : Cfg) (s : St) : Nat :=
-  5 * s.todo.length + (if c.wantClose && !s.inClosed then 1 else 0) + 4 * s.inq.length + rankSum s.ws
-  + s.outq.length + (if s.handoff.isSome then 2 else 0) + crank s.cpc
+  5 * todoLen s.todo + (if c.wantClose && !s.inClosed then 1 else 0) + 4 * s.inq.length + rankSum s.ws
+  + s.outq.length + 2 * nHand s.handoff + crankSum s.cpcs
   + (if s.stop then 0 else 1) + (if s.waitReturned then 0 else 1)
 
-theorem rankSum_set (ws : List WPc) (i : Nat) (a b : WPc) (h : ws[i]? = some a) :
-    rankSum (ws.set i b) + rank a = rankSum ws + rank b := by
-  induction ws generalizing i with
+theorem sum_map_set' {α : Type} (f : α → Nat) (l : List α) (i : Nat) (a b : α) (h : l[i]? = some a) :
+    ((l.set i b).map f).sum + f a = (l.map f).sum + f b := by
+  induction l generalizing i with
   | nil => simp at h
   | cons x xs ih =>
     cases i with
-    | zero => simp at h; subst h; simp [rankSum]; omega
-    | succ n => simp at h; have := ih n h; simp [rankSum] at this ⊢; omega
+    | zero => simp at h; subst h; simp; omega
+    | succ n => simp at h; have := ih n h; simp at this ⊢; omega
+
+theorem rankSum_set (ws : List WPc) (i : Nat) (a b : WPc) (h : ws[i]? = some a) :
+    rankSum (ws.set i b) + rank a = rankSum ws + rank b := sum_map_set' rank ws i a b h
+
+theorem crankSum_set (cs : List CPc) (i : Nat) (a b : CPc) (h : cs[i]? = some a) :
+    crankSum (cs.set i b) + crank a = crankSum cs + crank b := sum_map_set' crank cs i a b h
+
+theorem todoLen_set (todo : List (List Op)) (p : Nat) (a b : List Op) (h : todo[p]? = some a) :
+    todoLen (todo.set p b) + a.length = todoLen todo + b.length := sum_map_set' List.length todo p a b h
+
+theorem nHand_set (ho : List (Option Res)) (k : Nat) (a b : Option Res) (h : ho[k]? = some a) :
+    nHand (ho.set k b) + (if a.isSome then 1 else 0) = nHand ho + (if b.isSome then 1 else 0) :=
+  countP_set Option.isSome ho k a b h
+
+theorem rank_held {pc : WPc} {r : Res} (h : heldOf pc = some r) : rank pc = 5 := by
+  cases pc <;> simp [heldOf] at h <;> rfl
 
 theorem mu_step (hfix : c.fixed = true) {a : Actor}
     (hI : Inv c s) (h : step c s a = some s') : mu c s' < mu c s := by
-  have hnc := hI.nocrash
-  simp only [step, hnc, Option.isSome_none, Bool.false_eq_true, if_false] at h
-  cases a with
-  | worker i =>
-    simp only at h
-    cases hget : s.ws[i]? with
-    | none => simp [workerStep, hget] at h
-    | some pc =>
-      cases pc with
-      | idle =>
-        simp only [workerStep, hget] at h
-        have hr := rankSum_set s.ws i _ WPc.recv hget
-        split at h
-        · cases h; simp [mu, rank] at hr ⊢; omega
-        · cases h
-      | recv =>
-        simp only [workerStep, hget] at h
-        split at h
-        · rename_i op rest hinq
-          cases h
-          cases hp : op.isPan
-          · have hr := rankSum_set s.ws i _ (WPc.send (eval op)) hget
-            simp [mu, rank, hinq] at hr ⊢; omega
-          · have hr := rankSum_set s.ws i _ (WPc.sendErr (eval op)) hget
-            simp [mu, rank, hinq] at hr ⊢; omega
-        · split at h
-          · cases h
-            have hr := rankSum_set s.ws i _ WPc.tokret hget
-            simp [mu, rank] at hr ⊢; omega
-          · cases h
-      | send r =>
-        simp only [workerStep, hget] at h
-        have ⟨hc0, _⟩ := closes_zero_of_active hI hget (pc := .send r) rfl
-        have hgt : ¬ (s.closes > 0) := by omega
-        have hr1 := rankSum_set s.ws i _ WPc.recv hget
-        have hr2 := rankSum_set s.ws i _ WPc.tokret hget
-        cases hrw : s.recvWaiting <;> cases hst : s.stop <;>
-          by_cases hroom : s.outq.length < c.outCap <;>
-          simp [sendOut, hgt, hrw, hroom, hnc, hst] at h
-        all_goals subst h
-        all_goals (simp [mu, rank, hst] at hr1 hr2 ⊢; split <;> omega)
-      | sendErr r =>
-        simp only [workerStep, hget] at h
-        have ⟨hc0, _⟩ := closes_zero_of_active hI hget (pc := .sendErr r) rfl
-        have hgt : ¬ (s.closes > 0) := by omega
-        have hr2 := rankSum_set s.ws i _ WPc.tokret hget
-        cases hrw : s.recvWaiting <;>
-          by_cases hroom : s.outq.length < c.outCap <;>
-          simp [sendOut, hgt, hrw, hroom, hnc] at h
-        all_goals subst h
-        all_goals (simp [mu, rank] at hr2 ⊢; split <;> omega)
-      | tokret =>
-        simp only [workerStep, hget] at h
-        have ⟨hc0, _⟩ := closes_zero_of_active hI hget (pc := .tokret) rfl
-        have hgt : ¬ (s.closes > 0) := by omega
-        have hr := rankSum_set s.ws i _ WPc.done hget
-        cases h
-        by_cases hlast : s.exited + 1 = c.threads <;>
-          simp [exitBlock, hfix, hlast, hgt, mu, rank] at hr ⊢ <;> omega
-      | done => simp [workerStep, hget] at h
-  | producer =>
-    simp only [producerStep] at h
-    split at h
-    · rename_i op rest htodo
-      split at h
-      · cases h
-      · split at h
-        · cases h; simp [mu, htodo]; omega
-        · cases h
-    · split at h
-      · rename_i hcl
-        cases h
-        simp at hcl
-        simp [mu, hcl]
-      · cases h
-  | collector =>
-    simp only [collectorStep] at h
-    split at h
-    · rename_i hc
-      split at h
-      · rename_i r rest hq
-        cases h; simp [mu, hq, hc, crank] <;> omega
-      · split at h
-        · cases h; simp [mu, hc, crank] <;> omega
-        · cases h; simp [mu, hc, crank] <;> omega
-    · rename_i hc
-      split at h
-      · rename_i r hh
-        cases h; simp [mu, hc, hh, crank] <;> omega
-      · rename_i hh
-        split at h
-        · cases h; simp [mu, hc, hh, crank]
-        · cases h
-    · cases h
-  | stopper =>
-    simp only at h
-    split at h
-    · cases h
-    · rename_i hst
-      cases h; simp at hst; simp [mu, hst]
-  | waiter =>
-    simp only at h
-    split at h
-    · rename_i hw
-      cases h; simp at hw; simp [mu, hw]
-    · cases h
+  cases shape_of_step hfix hI.a h with
+  | w_idle i hget hw =>
+    have hr := rankSum_set s.ws i _ WPc.recv hget
+    simp only [mu, rank] at hr ⊢; omega
+  | w_take i op rest hget hq =>
+    have hr := rankSum_set s.ws i _ (if op.isPan then WPc.sendErr (eval op) else WPc.send (eval op)) hget
+    have h5 : rank (if op.isPan then WPc.sendErr (eval op) else WPc.send (eval op)) = 5 := by
+      cases op.isPan <;> rfl
+    rw [h5] at hr
+    simp only [mu, rank, hq, List.length_cons] at hr ⊢; omega
+  | w_closed i hget hq hcl =>
+    have hr := rankSum_set s.ws i _ WPc.tokret hget
+    simp only [mu, rank] at hr ⊢; omega
+  | w_hand i pc pc' r w' k rest hget hheld hheld' hc0 hq =>
+    have hk := hI.c'.rq_coh k (by rw [hq]; simp)
+    have hklt : k < s.handoff.length := by rw [hI.c'.hlen, ← hI.c'.clen]; exact lt_of_getElem? hk.1
+    have hn := nHand_set s.handoff k none (some r) (getElem?_of_getD_none hklt hk.2)
+    have hr := rankSum_set s.ws i _ pc' hget
+    rw [rank_held hheld] at hr
+    have : rank pc' ≤ 2 := by rcases hheld' with e | e <;> subst e <;> simp [rank]
+    simp only [mu] at hr hn ⊢
+    simp at hn; omega
+  | w_buf i pc pc' r w' hget hheld hheld' hc0 hq hroom =>
+    have hr := rankSum_set s.ws i _ pc' hget
+    rw [rank_held hheld] at hr
+    have : rank pc' ≤ 2 := by rcases hheld' with e | e <;> subst e <;> simp [rank]
+    simp only [mu, List.length_append, List.length_cons, List.length_nil] at hr ⊢; omega
+  | w_exit i cl hget hcl =>
+    have hr := rankSum_set s.ws i _ WPc.done hget
+    simp only [mu, rank] at hr ⊢; omega
+  | p_submit p op rest hget hncl hroom =>
+    have ht := todoLen_set s.todo p _ rest hget
+    simp only [mu, List.length_append, List.length_cons, List.length_nil] at ht ⊢; omega
+  | p_close p hall hncl hwc =>
+    simp only [mu, hwc, hncl]; simp
+  | c_take k r rest hget hq =>
+    simp only [mu, hq, List.length_cons]; omega
+  | c_seen_ready k hget hq hcl =>
+    have hr := crankSum_set s.cpcs k _ CPc.closedSeen hget
+    simp only [mu, crank] at hr ⊢; omega
+  | c_wait k hget hq hcl =>
+    have hr := crankSum_set s.cpcs k _ CPc.receiving hget
+    simp only [mu, crank] at hr ⊢; omega
+  | c_hand k r hget hh =>
+    have hr := crankSum_set s.cpcs k _ CPc.ready hget
+    have hn := nHand_set s.handoff k (some r) none (getElem?_of_getD_some hh)
+    simp only [mu, crank] at hr hn ⊢
+    simp at hn; omega
+  | c_seen_recv k hget hh hcl =>
+    have hr := crankSum_set s.cpcs k _ CPc.closedSeen hget
+    simp only [mu, crank] at hr ⊢; omega
+  | stop hst => simp only [mu, hst]; simp
+  | wait hwr hwg => simp only [mu, hwr]; simp
 
-/-! ### progress: with the queue closed, a state where no worker and not the collector can
-move is the clean final state -/
+/-! ### progress: with the queue closed, a state where no worker and no collector can move is the
+clean final state (at least one collector exists) -/
 
-theorem send_blocked_absurd (hI : Inv c s) (hc0 : s.closes = 0)
-    (hrw : s.recvWaiting = false) (hc : collectorStep s = none) : False := by
-  simp only [collectorStep] at hc
-  split at hc
-  · split at hc
+/-- a collector that is not enabled has seen `out` closed, or waits in `recvq` with `out` open -/
+theorem collector_stuck (hI : Inv c s) {k : Nat} {pc : CPc} (hget : s.cpcs[k]? = some pc)
+    (hc : collectorStep s k = none) :
+    pc = .closedSeen ∨ (pc = .receiving ∧ k ∈ s.recvq ∧ s.closes = 0) := by
+  simp only [collectorStep, hget] at hc
+  cases pc with
+  | ready =>
+    simp only at hc
+    split at hc
     · cases hc
     · split at hc <;> cases hc
-  · rename_i hcpc
+  | receiving =>
+    right
+    simp only at hc
     split at hc
     · cases hc
     · rename_i hh
-      have := hI.recv_coh hcpc
-      simp [hrw, hh] at this
-  · rename_i hcpc
-    have := (hI.seen_coh hcpc).2.2
-    omega
+      split at hc
+      · cases hc
+      · rename_i hcl
+        rcases hI.c'.recv_coh k hget with h' | h'
+        · exact ⟨rfl, h', by omega⟩
+        · rw [hh] at h'; cases h'
+  | closedSeen => left; rfl
 
-theorem stuck_worker_done (hI : Inv c s) (hcl : s.inClosed = true) {i : Nat} {pc : WPc}
+theorem send_blocked_absurd (hn : 0 < c.ncoll) (hI : Inv c s) (hc0 : s.closes = 0)
+    (hrq : s.recvq = []) (hc : ∀ k, collectorStep s k = none) : False := by
+  have hlt : 0 < s.cpcs.length := by rw [hI.c'.clen]; exact hn
+  have hget : s.cpcs[0]? = some s.cpcs[0] := by simp [hlt]
+  rcases collector_stuck hI hget (hc 0) with h' | ⟨_, h', _⟩
+  · rw [h'] at hget
+    have := (hI.c'.seen_coh 0 hget).2
+    omega
+  · rw [hrq] at h'; cases h'
+
+theorem stuck_worker_done (hn : 0 < c.ncoll) (hI : Inv c s) (hcl : s.inClosed = true) {i : Nat} {pc : WPc}
     (hget : s.ws[i]? = some pc)
-    (hw : workerStep c s i = none) (hc : collectorStep s = none) : pc = .done := by
-  have hnc := hI.nocrash
+    (hw : workerStep c s i = none) (hc : ∀ k, collectorStep s k = none) : pc = .done := by
+  have hnc := hI.a.nocrash
   cases pc with
   | idle =>
     simp only [workerStep, hget] at hw
     split at hw
     · cases hw
     · have h1 := countP_lt_length_of WPc.holds s.ws i _ hget rfl
-      have h2 := hI.tokens
-      have h3 := hI.len
+      have h2 := hI.a.tokens
+      have h3 := hI.a.len
       omega
   | recv =>
     simp only [workerStep, hget] at hw
@@ -417,49 +1153,47 @@ theorem stuck_worker_done (hI : Inv c s) (hcl : s.inClosed = true) {i : Nat} {pc
   | send r =>
     exfalso
     simp only [workerStep, hget] at hw
-    have ⟨hc0, _⟩ := closes_zero_of_active hI hget (pc := .send r) rfl
+    have ⟨hc0, _⟩ := closes_zero_of_active hI.a hget (pc := .send r) rfl
     have hgt : ¬ (s.closes > 0) := by omega
-    cases hrw : s.recvWaiting
-    · exact send_blocked_absurd hI hc0 hrw hc
-    · cases hst : s.stop <;> simp [sendOut, hgt, hrw, hnc, hst] at hw
+    cases hrq : s.recvq with
+    | nil => exact send_blocked_absurd hn hI hc0 hrq hc
+    | cons k rest => cases hst : s.stop <;> simp [sendOut, hgt, hrq, hnc, hst] at hw
   | sendErr r =>
     exfalso
     simp only [workerStep, hget] at hw
-    have ⟨hc0, _⟩ := closes_zero_of_active hI hget (pc := .sendErr r) rfl
+    have ⟨hc0, _⟩ := closes_zero_of_active hI.a hget (pc := .sendErr r) rfl
     have hgt : ¬ (s.closes > 0) := by omega
-    cases hrw : s.recvWaiting
-    · exact send_blocked_absurd hI hc0 hrw hc
-    · simp [sendOut, hgt, hrw, hnc] at hw
+    cases hrq : s.recvq with
+    | nil => exact send_blocked_absurd hn hI hc0 hrq hc
+    | cons k rest => simp [sendOut, hgt, hrq, hnc] at hw
   | tokret => simp [workerStep, hget] at hw
   | done => rfl
 
 theorem allDone_iff (hI : Inv c s) : allDone s = true ↔ s.exited = c.threads := by
-  rw [hI.exited_eq, ← hI.len, List.countP_eq_length]
+  rw [hI.a.exited_eq, ← hI.a.len, List.countP_eq_length]
   simp [allDone, List.all_eq_true]
 
-theorem stuck_final (hI : Inv c s) (hcl : s.inClosed = true)
-    (hw : ∀ i, step c s (.worker i) = none) (hc : step c s .collector = none) :
-    allDone s = true ∧ s.closes = 1 ∧ s.wgDone = c.threads ∧ s.cpc = .closedSeen := by
-  have hnc := hI.nocrash
+theorem stuck_final (hn : 0 < c.ncoll) (hI : Inv c s) (hcl : s.inClosed = true)
+    (hw : ∀ i, step c s (.worker i) = none) (hc : ∀ k, step c s (.collector k) = none) :
+    allDone s = true ∧ s.closes = 1 ∧ s.wgDone = c.threads ∧ allSeen s = true := by
+  have hnc := hI.a.nocrash
   simp only [step, hnc, Option.isSome_none, Bool.false_eq_true, if_false] at hw hc
   have hall : allDone s = true := by
     simp only [allDone, List.all_eq_true]
     intro pc hmem
     obtain ⟨i, hi, hget⟩ := List.getElem_of_mem hmem
     have hget' : s.ws[i]? = some pc := by simp [hi, hget]
-    have := stuck_worker_done hI hcl hget' (hw i) hc
+    have := stuck_worker_done hn hI hcl hget' (hw i) hc
     subst this; rfl
   have hex := (allDone_iff hI).1 hall
-  have hcloses : s.closes = 1 := by have := hI.closes_eq; simp [hex] at this; exact this
-  refine ⟨hall, hcloses, by rw [hI.wg_eq, hex], ?_⟩
-  simp only [collectorStep] at hc
-  split at hc
-  · split at hc
-    · cases hc
-    · split at hc <;> cases hc
-  · split at hc
-    · cases hc
-    · simp [hcloses] at hc
-  · assumption
+  have hcloses : s.closes = 1 := by have := hI.a.closes_eq; simp [hex] at this; exact this
+  refine ⟨hall, hcloses, by rw [hI.a.wg_eq, hex], ?_⟩
+  simp only [allSeen, List.all_eq_true]
+  intro pc hmem
+  obtain ⟨k, hk, hget⟩ := List.getElem_of_mem hmem
+  have hget' : s.cpcs[k]? = some pc := by simp [hk, hget]
+  rcases collector_stuck hI hget' (hc k) with h' | ⟨_, _, h'⟩
+  · subst h'; rfl
+  · omega
 
 end Biogo.Processor
